@@ -58,7 +58,11 @@ func (sv structValue) PropertyValue(index Value) Value {
 			// reflection cannot read an unexported field
 			return nilValue
 		}
-		fv := sr.FieldByName(field.Name)
+		// (a field promoted from an embedded pointer that is nil is not there)
+		fv, err := sr.FieldByIndexErr(field.Index)
+		if err != nil {
+			return nilValue
+		}
 		if fv.Kind() == reflect.Func {
 			return sv.invoke(fv)
 		}
